@@ -672,6 +672,16 @@ func (lb *LoadBalancer) handleRequest(w http.ResponseWriter, r *http.Request, st
 
 // findHealthyBackend attempts to find a healthy backend with retries
 func (lb *LoadBalancer) findHealthyBackend(r *http.Request) *Backend {
+	// A backend whose unhealthy window has elapsed is healthy again. Refresh the
+	// flags first: the strategies that filter on the flag never pick such a
+	// backend, so nothing else would ever bring it back without active checks.
+	lb.mutex.RLock()
+	backends := lb.strategy.GetBackends()
+	lb.mutex.RUnlock()
+	for _, backend := range backends {
+		lb.IsBackendHealthy(backend)
+	}
+
 	for i := 0; i < 3; i++ { // Try up to 3 times to find a healthy backend
 		backend := lb.NextBackend(r)
 		if backend == nil {
